@@ -13,11 +13,18 @@ EXTENDS ExprSem
 Clause(name, ok, detail) == IF ok THEN <<>> ELSE << <<name, detail>> >>
 
 (* -- value preservation on every target assignment ---------------------- *)
+(* An event may carry  fix = << <<idx id, orbital>>, ... >> : it then covers  *)
+(* only the target assignments with these values (the harness splits one    *)
+(* big comparison into slices that together cover every assignment, so that *)
+(* TLC's workers share it).                                                 *)
+SliceOk(ev, sig) ==
+  ~("fix" \in DOMAIN ev) \/ \A j \in 1..Len(ev.fix) : sig[ev.fix[j][1]] = ev.fix[j][2]
+
 ValDiff(ev, M, x, y) ==
   LET px == PrepExpr(x)
       py == PrepExpr(y)
   IN {sig \in Assignments(ev.tgt, ev.idx, M) :
-        ValP(px, ev.idx, sig, M) # ValP(py, ev.idx, sig, M)}
+        SliceOk(ev, sig) /\ ValP(px, ev.idx, sig, M) # ValP(py, ev.idx, sig, M)}
 
 ValEq(ev, M, x, y) ==
   LET tg == SeqRange(ev.tgt) IN
